@@ -222,7 +222,7 @@ theorem goodStore_add_seq (hs : Option HistStore) (n : Nat) (gs : List Generatio
     | none => intro g hg; cases hg
     | some s => exact hst s rfl
   have hcc := (C05.checkChain_ok_iff _).1 (checkChain_of_checkStore_seq hs hchk)
-  have hmax : ∀ g ∈ loadGens (hs.getD {}), g.number ≤ n + 1 := by
+  have hmax : ∀ g ∈ loadGens (hs.getD {}), g.number < n + 1 := by
     intro g hg
     rw [storeGens_getD_seq] at hg
     have : g.number ∈ List.range' 1 n := hnums ▸ List.mem_map.2 ⟨g, hg, rfl⟩
@@ -230,24 +230,33 @@ theorem goodStore_add_seq (hs : Option HistStore) (n : Nat) (gs : List Generatio
     omega
   have hload : storeGens (some ((hs.getD {}).add w)) = storeGens hs ++ [⟨n + 1, w.gen⟩] := by
     show loadGens _ = _
-    rw [C06.loadGens_add _ w (n + 1) hparse hstate hmax, storeGens_getD_seq]
+    rw [C06.loadGens_add_lt _ w (n + 1) hparse hstate hmax, storeGens_getD_seq]
+  have hchainAdd : ((hs.getD {}).add w).chain = (hs.getD {}).chain ++ [⟨w.number, w.gen.fileName⟩] := rfl
   refine ⟨?_, ?_, ?_, ?_, ?_⟩
   · show (if !((hs.getD {}).add w).chainPresent then throw errNoChain else checkChain ((hs.getD {}).add w)) = _
     rw [if_neg (by simp [HistStore.add])]
     rw [C05.checkChain_ok_iff]
     intro e he
-    have hgensAdd : ((hs.getD {}).add w).gens = (hs.getD {}).gens ++ [w.gen] := rfl
-    have hchainAdd : ((hs.getD {}).add w).chain = (hs.getD {}).chain ++ [⟨w.number, w.gen.fileName⟩] := rfl
-    rw [hgensAdd, List.find?_append]
-    rw [hchainAdd, List.mem_append] at he
-    rcases he with he | he
-    · obtain ⟨g, hf, hok⟩ := hcc e he
-      exact ⟨g, by rw [hf]; rfl, hok⟩
-    · simp only [List.mem_singleton] at he
-      subst he
-      cases hf : (hs.getD {}).gens.find? (fun g => g.fileName == w.gen.fileName) with
-      | some g => exact ⟨g, rfl, hstS g (List.mem_of_find?_eq_some hf)⟩
-      | none => exact ⟨w.gen, by simp, hstate⟩
+    -- whatever the chain entry names, the first stored manifest of that name is present and unaltered
+    cases hf : ((hs.getD {}).add w).gens.find? (fun g => g.fileName == e.fileName) with
+    | some g =>
+      refine ⟨g, rfl, ?_⟩
+      rcases (C06.mem_add_gens _ w g).1 (List.mem_of_find?_eq_some hf) with ⟨hg, -⟩ | rfl
+      · exact hstS g hg
+      · exact hstate
+    | none =>
+      exfalso
+      have hnone := List.find?_eq_none.1 hf
+      rw [hchainAdd, List.mem_append] at he
+      rcases he with he | he
+      · obtain ⟨g, hfg, -⟩ := hcc e he
+        have hgn : g.fileName = e.fileName := by simpa using List.find?_some hfg
+        by_cases hw : g.fileName = w.gen.fileName
+        · exact hnone w.gen ((C06.mem_add_gens _ w _).2 (Or.inr rfl)) (by simp [← hw, hgn])
+        · exact hnone g ((C06.mem_add_gens _ w _).2 (Or.inl ⟨List.mem_of_find?_eq_some hfg, hw⟩)) (by simp [hgn])
+      · simp only [List.mem_singleton] at he
+        subst he
+        exact hnone w.gen ((C06.mem_add_gens _ w _).2 (Or.inr rfl)) (by simp)
   · rw [hload, List.map_append, hnums, List.range'_1_concat]
     simp [Nat.add_comm]
   · rw [hload, List.map_append, hgens]; rfl
@@ -256,11 +265,9 @@ theorem goodStore_add_seq (hs : Option HistStore) (n : Nat) (gs : List Generatio
     rw [storeChain_getD_seq, hnum]; rfl
   · intro s hs' g hg
     cases hs'
-    have hgensAdd : ((hs.getD {}).add w).gens = (hs.getD {}).gens ++ [w.gen] := rfl
-    rw [hgensAdd, List.mem_append] at hg
-    rcases hg with hg | hg
+    rcases (C06.mem_add_gens _ w g).1 hg with ⟨hg, -⟩ | rfl
     · exact hstS g hg
-    · simp only [List.mem_singleton] at hg; subst hg; exact hstate
+    · exact hstate
 
 /-! ## D. the commit on a folder in order -/
 
